@@ -573,6 +573,22 @@ class Interp:
                 self.refine(s2, expr, a)
                 out.extend(self.truth_fork(a, s2, None))
             return out
+        if isinstance(v, Ref) and st.obj(v).kind == "obj" and st.obj(v).cls in self.model.classes:
+            # an instance of one of the program's own classes is truthy unless its class says otherwise (__bool__, else __len__)
+            ci = self.model.classes[st.obj(v).cls]
+            m = self.model.find_method(ci, "__bool__") or self.model.find_method(ci, "__len__")
+            if m is not None:
+                out = []
+                for r, s2 in self.call_func(m.qualname, [v], {}, st, expr):
+                    if isinstance(r, bool) or (isinstance(r, int) and not isinstance(r, bool)):
+                        out.append((bool(r), s2))
+                    elif isinstance(r, Raised):
+                        s2.note(f"{m.name} raised while deciding truthiness")
+                        out.append((True, s2))
+                    else:
+                        s3 = s2.fork()
+                        out.extend([(True, s2), (False, s3)])
+                return out
         t = self.B.truth(self, v, st)
         if t is not None:
             return [(t, st)]
@@ -877,6 +893,9 @@ class Interp:
                 return ast.BoolOp(op=ast.Or(), values=subs)
             if isinstance(p, ast.MatchAs) and p.pattern is None:
                 return ast.Constant(value=True)
+            if isinstance(p, ast.MatchClass) and not p.patterns and not p.kwd_patterns:
+                # `case Cls():` is an isinstance test
+                return ast.Call(func=ast.Name(id="isinstance", ctx=ast.Load()), args=[subj_expr, p.cls], keywords=[])
             return None
 
         out = []
